@@ -20,7 +20,7 @@ func c07Prop(st *CaseStats, fam int) func(t *rapid.T) {
 		sc := GenScenario(t)
 		cfg := CaseCfg{Family: fam, MaxDocs: 8, MaxIn: 3, HoldAny: true}
 		depth := rapid.SampledFrom([]int{0, 0, 1, 1, 2}).Draw(t, "depth")
-		if fam == FamBlocks || fam == FamWide || fam == FamHuge {
+		if fam == FamBlocks || fam == FamWide || fam == FamHuge || fam == FamDVGaps {
 			cfg.MaxIn = 2
 			depth = rapid.SampledFrom([]int{0, 1, 1}).Draw(t, "depth")
 		}
@@ -124,6 +124,30 @@ func c07Prop(st *CaseStats, fam int) func(t *rapid.T) {
 				lastChunk = ch
 			}
 		}
+		if fam == FamDVGaps && n > 0 {
+			// a complete sweep with a fresh reader over all doc-value fields, in a drawn direction
+			sweepFields := append([]string{}, dvFields...)
+			if rapid.Bool().Draw(t, "sweepReversedFields") {
+				for i, j := 0, len(sweepFields)-1; i < j; i, j = i+1, j-1 {
+					sweepFields[i], sweepFields[j] = sweepFields[j], sweepFields[i]
+				}
+			}
+			sr, err := c.Seg.DocumentValueReader(sweepFields)
+			if err != nil {
+				t.Fatalf("%s %s: DocumentValueReader: %v", sc, c.Desc, err)
+			}
+			back := rapid.Bool().Draw(t, "sweepBackwards")
+			for i := 0; i < n; i++ {
+				d := i
+				if back {
+					d = n - 1 - i
+				}
+				if err := checkDVVisit(sr, c.Exp, sweepFields, uint64(d)); err != nil {
+					t.Fatalf("case %s %s\n  sweep (backwards=%v) with reader fields %q at document %d: %v", sc, c.Desc, back, sweepFields, d, err)
+				}
+			}
+			chunkChanges += n / 1024
+		}
 		hasDV, hasNonDV := false, false
 		for _, f := range fields {
 			if per := c.Exp.DV[f]; per != nil && !dvEmpty(per) {
@@ -172,4 +196,10 @@ func TestC07Huge(t *testing.T) {
 	st := NewStats("C07Huge", c07Rule)
 	defer st.Flush()
 	rapid.Check(t, c07Prop(st, FamHuge))
+}
+
+func TestC07Gaps(t *testing.T) {
+	st := NewStats("C07Gaps", c07Rule)
+	defer st.Flush()
+	rapid.Check(t, c07Prop(st, FamDVGaps))
 }
